@@ -348,7 +348,3 @@ Proof.
   apply in_map_iff in H. destruct H as [[r t] [E H]]. cbn [fst] in E. subst r.
   exists t. exact H.
 Qed.
-
-(* ---------- the last layer (executor message handler), read by the translator ---------- *)
-Lemma handler_forwards : transition_handler_forwards = true /\ (0 < transition_handler_sites)%N.
-Proof. split; reflexivity. Qed.
